@@ -22,11 +22,17 @@ package json
 //@ -- the item encodes as an empty object and the text is not empty
 //@ spec memberValue(c tabular.Cell) Str = (jsonEnc(c.raw) == "{}" && c.str != "") ? jsonEnc(mkiface(type[string], box(c.str))) : jsonEnc(c.raw)
 
+//@ -- emitCount(…, i): how many of the first i cells become members of the object: all but the empty cells of
+//@ -- skipable columns (C07). jMemN counts the member keys written.
+//@ ghost var jMemN Int
+//@ spec rec emitCount(hb (Array Loc Bool), he (Array Loc Bool), sk Slice, cells Slice, i int) int = i <= 0 ? 0 : emitCount(hb, he, sk, cells, i-1) + ((hb[elemloc(sk, i-1)] && he[fldloc(elemloc(cells, i-1), 4)]) ? 0 : 1)
+
 //@ func (*JSONTable).emitRowAsJSONObject
 //@   tags C07,C15,C09
 //@   requires jt != nil && w != nil && jsCellsFresh(cells) && len(skipableColumns) >= len(keys)
 //@   requires [writer-ok] !Wfailed
-//@   assigns ghost Wn, ghost Wchunk, ghost Wfailed, heap[[]byte]
+//@   assigns ghost Wn, ghost Wchunk, ghost Wfailed, heap[[]byte], ghost jMemN
+//@   ensures [one-member-per-cell-except-empty-skipable-ones] result == nil ==> jMemN == old(jMemN) + emitCount(heap[bool], heap[tabular.Cell.empty], skipableColumns, cells, len(cells)) @C07
 //@   ensures [more-cells-than-keys-refused] len(keys) < len(cells) ==> result != nil && Wn == old(Wn) @C07
 //@   ensures [failing-writer-surfaces] Wfailed ==> result != nil @C15
 //@   ensures [object-closed] result == nil ==> !Wfailed && Wn > old(Wn) && (Wchunk[Wn - 1] === "}" || Wchunk[Wn - 1] === "{}") @C07
@@ -35,12 +41,16 @@ package json
 //@   loop#1 invariant forall k int :: {Wchunk[k]} k < old(Wn) ==> Wchunk[k] === old(Wchunk)[k]
 //@   call Write#1 before assert [member-key-is-the-columns-key] arg1 === keys[i] @C07
 //@   call Write#2 before assert [member-value-is-item-or-text-fallback] bytesStr(heap[byte], arg1) == memberValue(cells[i]) @C07
+//@   loop#1 invariant [members-so-far] jMemN == old(jMemN) + emitCount(heap[bool], heap[tabular.Cell.empty], skipableColumns, cells, i)
+//@   loop#1 unfold emitCount(heap[bool], heap[tabular.Cell.empty], skipableColumns, cells, i + 1)
+//@   call Write#1 after ghost jMemN = jMemN + 1
+//@   entry unfold emitCount(heap[bool], heap[tabular.Cell.empty], skipableColumns, cells, 0)
 //@   loop#1 decreases len(cells) - i
 
 //@ func (*JSONTable).RenderTo
 //@   tags C07,C15,C09,C14
 //@   requires jt != nil && w != nil && tbl(jt.Table) && jtab(jt).nColumns <= 1099511627774
-//@   assigns heap[tabular.propertyImpl.properties], new(tabular.valueProperty), jtab(jt).ErrorContainer.errors_, elemscap(jtab(jt).ErrorContainer.errors_), ghost cbErrN, ghost cbErrLog, ghost cbCallN, ghost cbCallSelf, ghost cbCallOwner, ghost stage, ghost fires, ghost stageR, ghost firesR, ghost stageT, ghost stageC, ghost Wn, ghost Wchunk, ghost Wfailed, ghost jstate, ghost jobjs, new(bool), new(string), heap[[]byte]
+//@   assigns heap[tabular.propertyImpl.properties], new(tabular.valueProperty), jtab(jt).ErrorContainer.errors_, elemscap(jtab(jt).ErrorContainer.errors_), ghost cbErrN, ghost cbErrLog, ghost cbCallN, ghost cbCallSelf, ghost cbCallOwner, ghost stage, ghost fires, ghost stageR, ghost firesR, ghost stageT, ghost stageC, ghost Wn, ghost Wchunk, ghost Wfailed, ghost jstate, ghost jobjs, ghost jMemN, new(bool), new(string), heap[[]byte]
 //@   requires [writer-ok] !Wfailed
 //@   requires [nothing-written-yet] jstate == 0
 //@   ensures [exactly-one-render-pass] stageT[jtab(jt)] == old(stageT)[jtab(jt)] + 2 @C13
